@@ -186,7 +186,9 @@ def cycle_check(chk, d, root, tag, rnd, sigbase, witness, cycles=2, df=None):
         if not same:
             events[-1]['texts'] = [prev_fields[:400], ftext[:400]]
         prev_text, prev_fields = text, ftext
-        p = os.path.join(root, '%s_%d.tdda' % (tag, c))
+        # the same few file names are written again and again, by every case and every cycle: what a path held earlier
+        # in this process must not matter
+        p = os.path.join(root, 'constraints_%d.tdda' % (tid % 3))
         with open(p, 'w', encoding='utf-8') as f:
             f.write(text)
         try:
@@ -283,6 +285,23 @@ def run(chk):
         meta[tid] = w
         chk.coverage['replayed_cases'] += 1
         chk.count_case(json.dumps(fd, sort_keys=True), nontrivial=len(fd) > 1)
+        tid += 1
+    # 2b. hand-written bounds whose exact text needs 16-17 significant digits, verified on data that sits exactly on them:
+    #     the verdicts by dictionary, by path and by re-serialised object must be the same
+    import pandas as _pd
+    AWK = [0.1 + 0.2, -0.7999999999999999, 1 / 3, 1e-9 * 3, 123456.78900000002, 0.1 + 0.7]
+    for _ in range(240 if thorough else 40):
+        b = rnd.choice(AWK)
+        kind = rnd.choice(['min', 'max'])
+        prec = rnd.choice([None, 'closed', 'open', 'fuzzy'])
+        other = b - 1.0 if kind == 'max' else b + 1.0
+        df_ = _pd.DataFrame({'x': [b, other, other]})
+        val = b if prec is None else {'value': b, 'precision': prec}
+        d_ = {'fields': {'x': {'type': 'real', kind: val}}}
+        w = {'tid': tid, 'dict': d_, 'handwritten_awkward_float': True}
+        events += cycle_check(chk, d_, root, 'a%d' % tid, rnd, None, w, cycles=2, df=df_)
+        meta[tid] = w
+        chk.coverage['replayed_cases'] += 1
         tid += 1
     # 3. code -> spec: discovered constraint sets from rich frames, many cycles ---------------------------
     from tdda.constraints import discover_df
